@@ -56,16 +56,28 @@ def _extract_one(unit, hdig, extra_flags=(), src_override=None, root=None):
     h.update(" ".join(fl).encode())
     h.update((root or "").encode())
     out = os.path.join(CACHE, h.hexdigest() + ".json")
-    if not os.path.exists(out):
-        os.makedirs(CACHE, exist_ok=True)
-        tmp = out + ".tmp%d" % os.getpid()
-        cmd = [TOOL, "--out=" + tmp, "--root=" + (root or compdb.REPO), src, "--"] + fl
-        r = subprocess.run(cmd, stdout=subprocess.PIPE, stderr=subprocess.PIPE, timeout=300)
-        if r.returncode != 0 or not os.path.exists(tmp):
-            raise AnalysisBroken("unit %s does not parse: %s" % (unit, r.stderr.decode(errors="replace")[-2000:]))
-        os.replace(tmp, out)
-    with open(out) as fh:
-        d = json.load(fh)
+    d = None
+    for attempt in range(3):
+        if not os.path.exists(out):
+            os.makedirs(CACHE, exist_ok=True)
+            tmp = out + ".tmp%d.%d" % (os.getpid(), attempt)
+            cmd = [TOOL, "--out=" + tmp, "--root=" + (root or compdb.REPO), src, "--"] + fl
+            r = subprocess.run(cmd, stdout=subprocess.PIPE, stderr=subprocess.PIPE, timeout=300)
+            if r.returncode != 0 or not os.path.exists(tmp):
+                raise AnalysisBroken("unit %s does not parse: %s" % (unit, r.stderr.decode(errors="replace")[-2000:]))
+            os.replace(tmp, out)
+        try:
+            with open(out) as fh:
+                d = json.load(fh)
+            break
+        except (OSError, ValueError):
+            # another check running at the same time pruned the cache (or the file is half written): extract again
+            try:
+                os.unlink(out)
+            except OSError:
+                pass
+    if d is None:
+        raise AnalysisBroken("fact file for %s could not be read" % unit)
     d["unit"] = unit
     return d
 
@@ -94,9 +106,23 @@ def _prune_cache(limit=400):
         names = [os.path.join(CACHE, n) for n in os.listdir(CACHE)]
         if len(names) <= limit:
             return
-        names.sort(key=lambda n: os.stat(n).st_mtime)
-        for n in names[:len(names) - limit]:
-            os.unlink(n)
+        import time
+        now = time.time()
+        # never a file another check may be about to read: only files that have not been touched for an hour
+        aged = []
+        for n in names:
+            try:
+                m = os.stat(n).st_mtime
+            except OSError:
+                continue
+            if now - m > 3600:
+                aged.append((m, n))
+        aged.sort()
+        for m, n in aged[:max(0, len(names) - limit)]:
+            try:
+                os.unlink(n)
+            except OSError:
+                pass
     except OSError:
         pass
 
